@@ -20,6 +20,7 @@ type Permission struct {
 	allocation    *Allocation
 	timeout       time.Duration
 	lifetimeTimer *time.Timer
+	expiry        time.Time // Protected by the allocation's permissionsLock.
 	log           logging.LeveledLogger
 }
 
@@ -32,14 +33,19 @@ func NewPermission(addr net.Addr, log logging.LeveledLogger, timeout time.Durati
 	}
 }
 
+// start arms the permission's lifetime. The caller holds the allocation's
+// permissionsLock.
 func (p *Permission) start(lifetime time.Duration) {
+	p.expiry = time.Now().Add(lifetime)
 	p.lifetimeTimer = time.AfterFunc(lifetime, func() {
-		p.allocation.RemovePermission(p.Addr)
+		p.allocation.expirePermission(p)
 	})
 }
 
+// refresh extends the permission's lifetime. The caller holds the allocation's
+// permissionsLock: when the timer has already fired, its callback is waiting
+// for that lock, and will find the new expiry and stand down.
 func (p *Permission) refresh(lifetime time.Duration) {
-	if !p.lifetimeTimer.Reset(lifetime) {
-		p.log.Errorf("Failed to reset permission timer for %v %v", p.Addr, p.allocation.fiveTuple)
-	}
+	p.expiry = time.Now().Add(lifetime)
+	p.lifetimeTimer.Reset(lifetime)
 }
